@@ -154,7 +154,8 @@ Lemma strict_step : forall w cont b0 b1 rest k i len,
   SB w cont b0 k -> bad2 cont b0 b1 = true ->
   io_stream i = skipn (Z.to_nat k) (b0 :: b1 :: rest) -> sched_live (io_sched i) = true ->
   exists ret e w' i' log, ws_decode true w i len = ORet ret e [] w' i' log /\ sched_live (io_sched i') = true /\
-    ((ret = -1 /\ e = Some EAGAIN /\ exists k', SB w' cont b0 k' /\ io_stream i' = skipn (Z.to_nat k') (b0 :: b1 :: rest)) \/
+    ((ret = -1 /\ e = Some EAGAIN /\ exists k', SB w' cont b0 k' /\ io_stream i' = skipn (Z.to_nat k') (b0 :: b1 :: rest) /\
+                                       k <= k' /\ (k' = k -> avail_head i = false)) \/
      (ret = -1 /\ e = Some EPROTO)).
 Proof.
   intros w cont b0 b1 rest k i len (Hst & Hnr & Hk & Hg0 & Hco & Hbl) Hbad Hs Hl.
@@ -163,14 +164,16 @@ Proof.
   assert ((HL_SHORT - k <=? 0) = false) as En by (unfold HL_SHORT; destruct Hk as [Hk|Hk]; rewrite Hk; reflexivity).
   rewrite En. cbn [andb].
   unfold hdr_read. rewrite to_u64_id by (unfold HL_SHORT, two64; lia).
-  destruct (reader_live (HL_SHORT - k) i Hl ltac:(unfold HL_SHORT; lia)) as (r & i' & tag & Hr & Hl' & Hcase).
-  rewrite Hr. destruct Hcase as [[-> Hs'] | (m & Hm0 & Hmn & Hms & -> & Hs')].
+  destruct (reader_live (HL_SHORT - k) i Hl ltac:(unfold HL_SHORT; lia)) as (r & i' & tag & Hr & Hl' & _ & Hcase).
+  rewrite Hr. destruct Hcase as [(-> & Hs' & Hav) | (m & Hm0 & Hmn & Hms & -> & Hs')].
   - (* EAGAIN: nothing changes *)
     unfold h_pending. change (ST_HEADER_PENDING =? ST_ERR) with false. cbv iota.
     change (negb (ST_HEADER_PENDING =? ST_HEADER_PENDING)) with false. cbv iota.
     do 5 eexists. split; [reflexivity|]. split; [assumption|]. left. split; [reflexivity|]. split; [reflexivity|].
-    exists k. rewrite spor_id by (right; right; reflexivity). split; [|rewrite Hs'; assumption].
-    unfold SB. cbn [w_st set_st w_hd w_contop w_buf]. repeat split; try assumption; reflexivity.
+    exists k. rewrite spor_id by (right; right; reflexivity). split; [|split; [rewrite Hs'; assumption|split; [lia|]]].
+    + unfold SB. cbn [w_st set_st w_hd w_contop w_buf]. repeat split; try assumption; reflexivity.
+    + intros _. destruct (avail_head i) eqn:Ea; [|reflexivity]. exfalso. specialize (Hav eq_refl). rewrite Hs in Hav.
+      destruct Hk as [Hk|Hk]; rewrite Hk in Hav; cbn in Hav; discriminate Hav.
   - set (d := firstn (Z.to_nat m) (io_stream i)) in *.
     assert (zlen d = m) as Hdl by (subst d; apply zlen_firstn; lia).
     rewrite Hnr.
@@ -186,7 +189,7 @@ Proof.
       * unfold SB. cbn [w_st set_st w_hd set_hd set_buf hd_set_nread h_nread w_contop w_buf].
         rewrite (buf_write_len _ _ _ _ Hb). repeat split; try assumption; try reflexivity; [right; reflexivity|].
         intros _. apply (buf_get_write _ _ _ _ 0 b0 Hb); [|lia]. subst d. rewrite Hs. reflexivity.
-      * rewrite Hs', Hs. reflexivity.
+      * split; [rewrite Hs', Hs; reflexivity|]. split; [lia|]. intro Hc. discriminate Hc.
     + (* both offending bytes are there: hdr_parse must fail *)
       set (w1 := set_hd (set_buf w b) (hd_set_nread (w_hd w) (k + m))).
       assert (buf_get (w_buf w1) 0 = Some b0 /\ buf_get (w_buf w1) 1 = Some b1) as [G0 G1].
@@ -218,7 +221,7 @@ Proof.
   induction lens as [|len lens IH]; intros w cont b0 b1 rest k i HS Hbad Hs Hl; [exact I|].
   destruct (strict_step w cont b0 b1 rest k i len HS Hbad Hs Hl) as (ret & e & w' & i' & log & E & Hl' & Hcase).
   cbn [ws_run]. rewrite E. destruct (ws_run true w' i' lens) as [[rs wf] iof] eqn:Er. cbn [fst first_hard].
-  destruct Hcase as [(-> & -> & k' & HS' & Hs') | (-> & ->)].
+  destruct Hcase as [(-> & -> & k' & HS' & Hs' & _) | (-> & ->)].
   - cbn [is_again]. change ((-1 =? -1) && (zlen (@nil Z) =? 0)) with true. cbv iota.
     specialize (IH w' cont b0 b1 rest k' i' HS' Hbad Hs' Hl'). rewrite Er in IH. exact IH.
   - reflexivity.
